@@ -5,11 +5,30 @@
   Lean monitors over the implementation's events.
 -/
 import CppUtil.Model.WClient
+import CppUtil.Model.MClient
 import CppUtil.Monitor.Excl
 import CppUtil.Gen.Pess
 import CppUtil.Gen.Opt
+import CppUtil.Gen.Mcs
 
 open CppUtil CppUtil.WClient CppUtil.Monitor
+
+/-- the model side of one scenario -/
+inductive Sim where
+  | w (P : WLock.WParams) (c : WClient.Client)
+  | m (P : Mcs.Params) (c : MClient.Client)
+
+def Sim.step : Sim → Nat → Option (Sim × String × List String)
+  | .w P c, t => (WClient.stepThread P c t).map fun (c', e, o) => (.w P c', e, o)
+  | .m P c, t => (MClient.stepThread P c t).map fun (c', e, o) => (.m P c', e, o)
+
+def Sim.allDone : Sim → Bool
+  | .w _ c => c.threads.all (·.finished)
+  | .m _ c => c.threads.all (·.finished)
+
+def Sim.uaf : Sim → Nat
+  | .w _ _ => 0
+  | .m _ c => c.core.uaf
 
 def splitWs (s : String) : List String := (s.splitOn " ").filter (· ≠ "")
 
@@ -83,14 +102,20 @@ def bump (l : List (String × Nat)) (k : String) : List (String × Nat) :=
 
 structure Run where
   sc : Scen
-  P : WLock.WParams
-  c : Client
+  sim : Sim
   mon : MonSt := {}
   step : Nat := 0
   mismatch : Option String := none
 
-def paramsOf (sc : Scen) : WLock.WParams :=
-  if sc.comp == "opt" then Gen.opt sc.retry else Gen.pess sc.retry
+def mcsParams : Mcs.Params :=
+  { C := Gen.mcsConsts, ord := Gen.mcsOrders, publishStore := Gen.mcsPublishIsStore }
+
+def mkSim (sc : Scen) : Sim :=
+  if sc.comp == "mcs" then .m mcsParams (MClient.mkClient sc.nlocks sc.kinds sc.progs)
+  else if sc.comp == "opt" then .w (Gen.opt sc.retry) (WClient.mkClient sc.nlocks sc.kinds sc.progs)
+  else .w (Gen.pess sc.retry) (WClient.mkClient sc.nlocks sc.kinds sc.progs)
+
+def mkRun (sc : Scen) : Run := { sc := sc, sim := mkSim sc }
 
 /-- instruction-aware part of the monitors: `R<k>=res` tokens -/
 def monResult (r : Run) (tid : Nat) (tok : String) : MonSt :=
@@ -115,21 +140,31 @@ def processQ (r : Run) (line : String) (st : Stats) : Run × Stats :=
     let tid := tidS.toNat?.getD 0
     let implEv := " ".intercalate evParts
     -- monitors on the implementation's tokens
+    let mon0 := fifoEvent r.mon tid (evParts.getD 0 "") (evParts.getD 1 "") (evParts.getD 6 "")
     let mon := toks.foldl (fun m tok =>
       let r' := { r with mon := m }
-      if tok.startsWith "G" then stepTok m tok
+      if tok.startsWith "G+" then fifoGrant (stepTok m tok) tid tok
+      else if tok.startsWith "G" then stepTok m tok
       else if tok.startsWith "R" then monResult r' tid tok
-      else m) r.mon
+      else if tok.startsWith "NA" || tok.startsWith "NF" then nodeTok m tok
+      else if tok.startsWith "B" then
+        match (tok.drop 1).toString.toNat? with
+        | some k =>
+          match (r.sc.progs.getD tid #[])[k]? with
+          | some (.lock md _ lk) => fifoBegin m tid lk md
+          | _ => m
+        | none => m
+      else m) mon0
     let st := { st with quanta := st.quanta + 1, evKinds := bump st.evKinds (s!"{evParts.getD 0 ""}/{evParts.getD 2 ""}"),
                         casFail := st.casFail + (if evParts.getD 0 "" == "cas" && evParts.getD 6 "" == "0" then 1 else 0) }
     let r := { r with mon := mon, step := r.step + 1 }
     match r.mismatch with
     | some _ => (r, st)
     | none =>
-      match stepThread r.P r.c tid with
+      match r.sim.step tid with
       | none => ({ r with mismatch := some s!"step={r.step} impl=[{implEv} | {" ".intercalate toks}] model=[thread {tid} has no enabled step]" }, st)
       | some (c', mev, mtoks) =>
-        if mev == implEv && mtoks == toks then ({ r with c := c' }, st)
+        if mev == implEv && mtoks == toks then ({ r with sim := c' }, st)
         else ({ r with mismatch := some s!"step={r.step} tid={tid} impl=[{implEv} | {" ".intercalate toks}] model=[{mev} | {" ".intercalate mtoks}]" }, st)
   | _ => (r, st)
 
@@ -152,18 +187,16 @@ partial def loop (h : IO.FS.Stream) (cur : Option Run) (pend : Scen) (st : Stats
   else if line.startsWith "Q " then
     let r := match cur with
       | some r => r
-      | none =>
-        let P := paramsOf pend
-        { sc := pend, P := P, c := mkClient pend.nlocks pend.kinds pend.progs }
+      | none => mkRun pend
     let (r, st) := processQ r line st
     loop h (some r) pend st
   else if line.startsWith "END" then
     let r := match cur with
       | some r => r
-      | none => { sc := pend, P := paramsOf pend, c := mkClient pend.nlocks pend.kinds pend.progs }
+      | none => mkRun pend
     let status := (splitWs line).getD 1 "ok"
     -- all threads finished in the model too?
-    let modelDone := r.c.threads.all (·.finished)
+    let modelDone := r.sim.allDone
     let corr := match r.mismatch with
       | some m => s!"mismatch {m}"
       | none => if status == "ok" && !modelDone then "mismatch end: implementation finished, model did not" else "ok"
@@ -179,6 +212,13 @@ partial def loop (h : IO.FS.Stream) (cur : Option Run) (pend : Scen) (st : Stats
                         bools := st.bools + r.mon.nBool, pays := st.pays + r.mon.nPay,
                         maxSimul := max st.maxSimul r.mon.maxSimul }
     loop h none {} st
+  else if line.startsWith "NODES " then
+    match cur with
+    | some r =>
+      let n := ((kvGet (splitWs line) "live").bind (·.toNat?)).getD 0
+      let mon := if n == 0 then r.mon else flag r.mon s!"nodes: {n} queue node(s) still allocated after all guards were released and all threads exited"
+      loop h (some { r with mon := mon }) pend st
+    | none => loop h cur pend st
   else
     loop h cur pend st
 
